@@ -499,4 +499,406 @@ theorem window_additive_aux (m : Nat) (hm : 0 < m) (v0 : Val) (ds : List Val) (i
         have : ds.length + 1 - (i + 1) = ds.length - i := by omega
         rw [this, List.take_append_of_le_length (by omega)]
 
+/-! ### equation-system wrappers -/
+
+theorem nodup_map_cons {α β : Type} {f : α → β} {a : α} {l : List α} (h : ((a :: l).map f).Nodup) :
+    f a ∉ l.map f ∧ (l.map f).Nodup := List.nodup_cons.mp h
+
+theorem blockOffset_none (sel : List String) (name : String) (lay : Layout)
+    (h : name ∉ lay.map (·.1)) : blockOffset sel name lay = none := by
+  induction lay with
+  | nil => rfl
+  | cons c rest ih =>
+    have hc : c.1 ≠ name := fun e => h (by simp [e])
+    have hr : name ∉ rest.map (·.1) := fun e => h (by simp only [List.map_cons, List.mem_cons]; exact Or.inr e)
+    by_cases hs : c.1 ∈ sel
+    · simp [blockOffset, hs, hc, ih hr]
+    · simp [blockOffset, hs, ih hr]
+
+theorem dget_dput' (d : Data) (k k' : Key) (s : Store) :
+    dget (dput d k s) k' = if k' = k then some s else dget d k' :=
+  alookup_ainsert d k k' s
+
+theorem getSolutionValues_slot (d : Data) (name : String) (loc : Loc) (i : Nat) :
+    getSolutionValues d name (tsArg loc i) (itArg loc i)
+      = match slotOf d loc name i with
+        | none => .err .keyError
+        | some v => .val v := by
+  have hi : ((i : Int) ≥ 0) := by omega
+  cases loc <;>
+    simp only [getSolutionValues, validateIndices, idxPart, tsArg, itArg, slotOf, hi, if_true,
+      Int.toNat_natCast, List.nil_append, List.append_nil, reduceCtorEq, if_false, Option.isNone_none,
+      Option.isNone_some, Bool.and_false, Bool.false_and, Bool.false_eq_true] <;>
+    (cases dget d _ with
+     | none => rfl
+     | some s => simp only [Option.bind_some]; cases lookup s i <;> rfl)
+
+/-- non-additive write with one index: never raises, changes exactly that slot -/
+theorem setSolutionValues_slot (d : Data) (name : String) (v : Val) (loc : Loc) (i : Nat) :
+    (setSolutionValues d name v (tsArg loc i) (itArg loc i) false).2 = .ok ∧
+      ∀ loc' name' j, slotOf (setSolutionValues d name v (tsArg loc i) (itArg loc i) false).1 loc' name' j
+        = if loc' = loc ∧ name' = name ∧ j = i then some v else slotOf d loc' name' j := by
+  have hi : ((i : Int) ≥ 0) := by omega
+  have key : setSolutionValues d name v (tsArg loc i) (itArg loc i) false
+      = (dput d (loc, name) (insert ((dget d (loc, name)).getD []) i v), .ok) := by
+    cases loc <;>
+      simp [setSolutionValues, validateIndices, idxPart, setLoop, tsArg, itArg]
+  rw [key]
+  refine ⟨rfl, fun loc' name' j => ?_⟩
+  simp only [slotOf, dget_dput']
+  by_cases hk : (loc', name') = (loc, name)
+  · rw [if_pos hk]
+    obtain ⟨h1, h2⟩ := Prod.mk.inj hk
+    subst h1; subst h2
+    simp only [Option.bind_some, lookup_insert, true_and]
+    by_cases hj : j = i
+    · simp [hj]
+    · simp only [if_neg hj]
+      cases dget d (loc', name') <;> simp [lookup, alookup]
+  · rw [if_neg hk]
+    have : ¬ (loc' = loc ∧ name' = name ∧ j = i) := by
+      rintro ⟨h1, h2, _⟩; exact hk (by rw [h1, h2])
+    rw [if_neg this]
+
+/-- frame of the setter loop: variables outside the layout keep every slot -/
+theorem esSetLoop_frame (sel : List String) (loc : Loc) (i : Nat) (values : Val) (lay : Layout)
+    (d : Data) (start : Nat) (loc' : Loc) (name' : String) (j : Nat)
+    (h : name' ∉ lay.map (·.1)) :
+    slotOf (esSetLoop sel (tsArg loc i) (itArg loc i) false values d start lay).1 loc' name' j
+      = slotOf d loc' name' j := by
+  induction lay generalizing d start with
+  | nil => rfl
+  | cons b rest ih =>
+    have hb : name' ≠ b.1 := fun e => h (by simp [e])
+    have hr : name' ∉ rest.map (·.1) := fun e => h (by simp only [List.map_cons, List.mem_cons]; exact Or.inr e)
+    unfold esSetLoop
+    by_cases hs : b.1 ∈ sel
+    · rw [if_pos hs]
+      have hset := setSolutionValues_slot d b.1 ((values.drop start).take b.2) loc i
+      simp only [hset.1]
+      rw [ih _ _ hr, hset.2]
+      have : ¬ (loc' = loc ∧ name' = b.1 ∧ j = i) := fun e => hb e.2.1
+      rw [if_neg this]
+    · rw [if_neg hs]
+      exact ih _ _ hr
+
+theorem esSetLoop_ok (sel : List String) (loc : Loc) (i : Nat) (values : Val) (lay : Layout)
+    (d : Data) (start : Nat) :
+    (esSetLoop sel (tsArg loc i) (itArg loc i) false values d start lay).2.1 = .ok ∧
+      (esSetLoop sel (tsArg loc i) (itArg loc i) false values d start lay).2.2 = start + selSize sel lay := by
+  induction lay generalizing d start with
+  | nil => exact ⟨rfl, rfl⟩
+  | cons b rest ih =>
+    unfold esSetLoop
+    by_cases hs : b.1 ∈ sel
+    · rw [if_pos hs]
+      have hset := setSolutionValues_slot d b.1 ((values.drop start).take b.2) loc i
+      simp only [hset.1]
+      have := ih (setSolutionValues d b.1 ((values.drop start).take b.2) (tsArg loc i) (itArg loc i) false).1 (start + b.2)
+      refine ⟨this.1, ?_⟩
+      rw [this.2]
+      simp only [selSize, if_pos hs]
+      omega
+    · rw [if_neg hs]
+      have := ih d start
+      refine ⟨this.1, ?_⟩
+      rw [this.2]
+      simp [selSize, hs]
+
+theorem take_drop_add (l : List Rat) (s n m : Nat) :
+    (l.drop s).take (n + m) = (l.drop s).take n ++ (l.drop (s + n)).take m := by
+  rw [List.take_add, List.drop_drop]
+
+/-- what the getter loop reads back after the setter loop -/
+theorem esGetLoop_esSetLoop (sel : List String) (loc : Loc) (i : Nat) (values : Val) (lay : Layout)
+    (hnd : (lay.map (·.1)).Nodup) (d : Data) (start : Nat) :
+    esGetLoop sel (tsArg loc i) (itArg loc i)
+        (esSetLoop sel (tsArg loc i) (itArg loc i) false values d start lay).1 lay
+      = .val ((values.drop start).take (selSize sel lay)) := by
+  induction lay generalizing d start with
+  | nil => simp [esGetLoop, selSize]
+  | cons b rest ih =>
+    have hn := nodup_map_cons hnd
+    unfold esSetLoop
+    by_cases hs : b.1 ∈ sel
+    · rw [if_pos hs]
+      have hset := setSolutionValues_slot d b.1 ((values.drop start).take b.2) loc i
+      simp only [hset.1]
+      unfold esGetLoop
+      rw [if_pos hs, getSolutionValues_slot, esSetLoop_frame _ _ _ _ _ _ _ _ _ _ hn.1, hset.2]
+      simp only [and_self, if_true]
+      rw [ih hn.2]
+      simp only [selSize, if_pos hs]
+      rw [take_drop_add]
+    · rw [if_neg hs]
+      unfold esGetLoop
+      rw [if_neg hs, ih hn.2]
+      simp [selSize, hs]
+
+/-- block by block: the slot of every selected variable holds its slice of the vector -/
+theorem esSetLoop_block (sel : List String) (loc : Loc) (i : Nat) (values : Val) (lay : Layout)
+    (hnd : (lay.map (·.1)).Nodup) (d : Data) (start : Nat) (name : String) (n off : Nat)
+    (hb : (name, n) ∈ lay) (hoff : blockOffset sel name lay = some off) :
+    slotOf (esSetLoop sel (tsArg loc i) (itArg loc i) false values d start lay).1 loc name i
+      = some ((values.drop (start + off)).take n) := by
+  induction lay generalizing d start off with
+  | nil => cases hb
+  | cons b rest ih =>
+    have hn := nodup_map_cons hnd
+    unfold esSetLoop
+    unfold blockOffset at hoff
+    by_cases hs : b.1 ∈ sel
+    · rw [if_pos hs] at hoff ⊢
+      have hset := setSolutionValues_slot d b.1 ((values.drop start).take b.2) loc i
+      simp only [hset.1]
+      by_cases hname : b.1 = name
+      · rw [if_pos hname] at hoff
+        have hoff0 : off = 0 := by simpa using hoff.symm
+        subst hoff0
+        have hbn : b = (name, n) := by
+          rcases List.mem_cons.mp hb with h | h
+          · exact h.symm
+          · exfalso; apply hn.1; rw [hname]
+            exact List.mem_map.mpr ⟨(name, n), h, rfl⟩
+        subst hbn
+        rw [esSetLoop_frame _ _ _ _ _ _ _ _ _ _ hn.1, hset.2]
+        simp
+      · rw [if_neg hname] at hoff
+        cases hoff' : blockOffset sel name rest with
+        | none => rw [hoff'] at hoff; simp at hoff
+        | some off' =>
+          rw [hoff'] at hoff
+          have : off = off' + b.2 := by simpa using hoff.symm
+          subst this
+          have hb' : (name, n) ∈ rest := by
+            rcases List.mem_cons.mp hb with h | h
+            · exact absurd (by rw [← h]) hname
+            · exact h
+          rw [ih hn.2 _ _ _ hb' hoff']
+          have : start + b.2 + off' = start + (off' + b.2) := by omega
+          rw [this]
+    · rw [if_neg hs] at hoff ⊢
+      have hb' : (name, n) ∈ rest := by
+        rcases List.mem_cons.mp hb with h | h
+        · exfalso
+          have hbn : b.1 = name := by rw [← h]
+          have hnotin : name ∉ rest.map (·.1) := by rw [← hbn]; exact hn.1
+          have := blockOffset_none sel name rest hnotin
+          rw [this] at hoff; cases hoff
+        · exact h
+      exact ih hn.2 _ _ _ hb' hoff
+
+/-! ### the heap model -/
+
+section heap
+variable {κ : Type} [DecidableEq κ] {α β : Type}
+
+theorem alookup_map_snd (g : α → β) (s : List (κ × α)) (i : κ) :
+    alookup (s.map (fun p => (p.1, g p.2))) i = (alookup s i).map g := by
+  induction s with
+  | nil => rfl
+  | cons p s ih =>
+    simp only [List.map_cons, alookup]
+    split <;> simp [ih]
+
+theorem map_ainsert_snd (g : α → β) (s : List (κ × α)) (k : κ) (a : α) :
+    (ainsert s k a).map (fun p => (p.1, g p.2)) = ainsert (s.map (fun p => (p.1, g p.2))) k (g a) := by
+  induction s with
+  | nil => rfl
+  | cons p s ih =>
+    simp only [List.map_cons, ainsert]
+    split
+    · rfl
+    · simp [ih]
+
+theorem mem_vals_ainsert (s : List (κ × α)) (k : κ) (a r : α) (h : r ∈ (ainsert s k a).map (·.2)) :
+    r = a ∨ r ∈ s.map (·.2) := by
+  induction s with
+  | nil => simpa [ainsert] using h
+  | cons p s ih =>
+    unfold ainsert at h
+    split at h
+    · simp only [List.map_cons, List.mem_cons] at h ⊢
+      rcases h with h | h
+      · exact Or.inl h
+      · exact Or.inr (Or.inr h)
+    · simp only [List.map_cons, List.mem_cons] at h ⊢
+      rcases h with h | h
+      · exact Or.inr (Or.inl h)
+      · rcases ih h with h | h
+        · exact Or.inl h
+        · exact Or.inr (Or.inr h)
+
+theorem nodup_vals_ainsert (s : List (κ × α)) (k : κ) (a : α) (hnd : (s.map (·.2)).Nodup)
+    (ha : a ∉ s.map (·.2)) : ((ainsert s k a).map (·.2)).Nodup := by
+  induction s with
+  | nil => simp [ainsert]
+  | cons p s ih =>
+    have hn := nodup_map_cons hnd
+    have ha' : a ∉ s.map (·.2) := fun e => ha (by simp only [List.map_cons, List.mem_cons]; exact Or.inr e)
+    have hap : a ≠ p.2 := fun e => ha (by simp [e])
+    unfold ainsert
+    split
+    · simp only [List.map_cons]
+      exact List.nodup_cons.mpr ⟨ha', hn.2⟩
+    · simp only [List.map_cons]
+      refine List.nodup_cons.mpr ⟨?_, ih hn.2 ha'⟩
+      intro hmem
+      rcases mem_vals_ainsert s k a p.2 hmem with h | h
+      · exact hap h.symm
+      · exact hn.1 h
+
+theorem alookup_mem_vals (s : List (κ × α)) (i : κ) (q : α) (h : alookup s i = some q) :
+    q ∈ s.map (·.2) := by
+  induction s with
+  | nil => cases h
+  | cons p s ih =>
+    unfold alookup at h
+    split at h
+    · simp only [Option.some.injEq] at h; simp [h]
+    · simp only [List.map_cons, List.mem_cons]; exact Or.inr (ih h)
+
+theorem map_update_eq_ainsert [DecidableEq α] (g : α → β) (x : β) (s : List (κ × α)) (i : κ) (q : α)
+    (hnd : (s.map (·.2)).Nodup) (hq : alookup s i = some q) :
+    s.map (fun p => (p.1, if p.2 = q then x else g p.2))
+      = ainsert (s.map (fun p => (p.1, g p.2))) i x := by
+  induction s with
+  | nil => cases hq
+  | cons p s ih =>
+    have hn := nodup_map_cons hnd
+    unfold alookup at hq
+    by_cases hp : p.1 = i
+    · rw [if_pos hp] at hq
+      have hpq : p.2 = q := by simpa using hq
+      simp only [List.map_cons, ainsert, hp, if_true, hpq]
+      congr 1
+      apply List.map_congr_left
+      intro c hc
+      have : c.2 ≠ q := by
+        intro e; apply hn.1; rw [hpq, ← e]; exact List.mem_map.mpr ⟨c, hc, rfl⟩
+      simp [this]
+    · rw [if_neg hp] at hq
+      have hqs := alookup_mem_vals s i q hq
+      have hpq : p.2 ≠ q := fun e => hn.1 (e ▸ hqs)
+      simp only [List.map_cons, ainsert, if_neg hp, if_neg hpq]
+      rw [ih hn.2 hq]
+
+end heap
+
+theorem deref_alloc_lt (st : HState) (v : Val) (r : Nat) (h : r < st.next) :
+    deref (alloc st v).1 r = deref st r := by
+  simp only [deref, alloc, alookup_ainsert]
+  rw [if_neg (by omega)]
+
+theorem deref_alloc_new (st : HState) (v : Val) : deref (alloc st v).1 st.next = v := by
+  simp [deref, alloc, alookup_ainsert]
+
+theorem view_congr (st st' : HState) (hs : st'.store = st.store)
+    (hd : ∀ r ∈ st.store.map (·.2), deref st' r = deref st r) : view st' = view st := by
+  unfold view
+  rw [hs]
+  apply List.map_congr_left
+  intro p hp
+  rw [hd p.2 (List.mem_map.mpr ⟨p, hp, rfl⟩)]
+
+theorem lookup_view (st : HState) (i : Nat) : lookup (view st) i = (alookup st.store i).map (deref st) :=
+  alookup_map_snd (deref st) st.store i
+
+theorem length_view (st : HState) : (view st).length = st.store.length := by simp [view]
+
+/-- allocate a copy of contents `v` and bind it to index `i`: separation is kept, the denoted store
+    is the value-level `insert` -/
+theorem sep_alloc_store (st : HState) (v : Val) (i : Nat) (h : Sep st) :
+    Sep { (alloc st v).1 with store := ainsert st.store i st.next } ∧
+      view { (alloc st v).1 with store := ainsert st.store i st.next } = insert (view st) i v := by
+  obtain ⟨h1, h2, h3, h4⟩ := h
+  have hfresh : st.next ∉ st.store.map (·.2) := fun e => Nat.lt_irrefl _ (h3 _ e)
+  refine ⟨⟨nodup_vals_ainsert _ _ _ h1 hfresh, ?_, ?_, ?_⟩, ?_⟩
+  · intro r hr
+    rcases mem_vals_ainsert _ _ _ _ hr with e | e
+    · subst e; exact fun hh => Nat.lt_irrefl _ (h4 _ hh)
+    · exact h2 r e
+  · intro r hr
+    rcases mem_vals_ainsert _ _ _ _ hr with e | e
+    · subst e; simp [alloc]
+    · have := h3 r e; simp only [alloc]; omega
+  · intro r hr
+    have := h4 r hr; simp only [alloc]; omega
+  · unfold view insert
+    simp only
+    rw [map_ainsert_snd]
+    have hnew : deref { (alloc st v).1 with store := ainsert st.store i st.next } st.next = v :=
+      deref_alloc_new st v
+    rw [hnew]
+    congr 1
+    apply List.map_congr_left
+    intro p hp
+    have hlt := h3 p.2 (List.mem_map.mpr ⟨p, hp, rfl⟩)
+    have : deref { (alloc st v).1 with store := ainsert st.store i st.next } p.2 = deref st p.2 :=
+      deref_alloc_lt st v p.2 hlt
+    rw [this]
+
+/-- allocate a copy and hand it to the caller -/
+theorem sep_alloc_held (st : HState) (v : Val) (h : Sep st) :
+    Sep { (alloc st v).1 with held := st.held ++ [st.next] } ∧
+      view { (alloc st v).1 with held := st.held ++ [st.next] } = view st := by
+  obtain ⟨h1, h2, h3, h4⟩ := h
+  refine ⟨⟨h1, ?_, ?_, ?_⟩, ?_⟩
+  · intro r hr hh
+    rcases List.mem_append.mp hh with e | e
+    · exact h2 r hr e
+    · have : r = st.next := by simpa using e
+      subst this
+      exact Nat.lt_irrefl _ (h3 _ hr)
+  · intro r hr
+    have := h3 r hr; simp only [alloc]; omega
+  · intro r hr
+    rcases List.mem_append.mp hr with e | e
+    · have := h4 r e; simp only [alloc]; omega
+    · have : r = st.next := by simpa using e
+      subst this; simp [alloc]
+  · exact view_congr st _ rfl (fun r hr => deref_alloc_lt st v r (h3 r hr))
+
+/-- the shift loop of the code as it is (every pass copies) -/
+theorem hshiftLoop_spec (top : Nat) (st : HState) (h : Sep st) :
+    Sep (hshiftLoop codePolicy true top st).1 ∧
+      view (hshiftLoop codePolicy true top st).1 = (shiftLoop top (view st)).1 ∧
+      (hshiftLoop codePolicy true top st).2 = (shiftLoop top (view st)).2 ∧
+      (hshiftLoop codePolicy true top st).1.held = st.held ∧
+      st.next ≤ (hshiftLoop codePolicy true top st).1.next ∧
+      (∀ r, r < st.next → deref (hshiftLoop codePolicy true top st).1 r = deref st r) := by
+  induction top generalizing st with
+  | zero => exact ⟨h, rfl, rfl, rfl, Nat.le_refl _, fun _ _ => rfl⟩
+  | succ i ih =>
+    cases hq : alookup st.store i with
+    | none =>
+      have h1 : hshiftLoop codePolicy true (i + 1) st = (st, false) := by
+        unfold hshiftLoop; rw [hq]
+      have h2 : shiftLoop (i + 1) (view st) = (view st, false) := by
+        unfold shiftLoop; rw [lookup_view, hq]; rfl
+      rw [h1, h2]
+      exact ⟨h, rfl, rfl, rfl, Nat.le_refl _, fun _ _ => rfl⟩
+    | some q =>
+      have hs := sep_alloc_store st (deref st q) (i + 1) h
+      have hih := ih _ hs.1
+      rw [hs.2] at hih
+      have h1 : hshiftLoop codePolicy true (i + 1) st
+          = hshiftLoop codePolicy true i
+              { (alloc st (deref st q)).1 with store := ainsert st.store (i + 1) st.next } := by
+        conv => lhs; unfold hshiftLoop
+        rw [hq]
+        rfl
+      have h2 : shiftLoop (i + 1) (view st) = shiftLoop i (insert (view st) (i + 1) (deref st q)) := by
+        conv => lhs; unfold shiftLoop
+        rw [lookup_view, hq]
+        rfl
+      rw [h1, h2]
+      have hnext : ({ (alloc st (deref st q)).1 with store := ainsert st.store (i + 1) st.next } : HState).next
+          = st.next + 1 := rfl
+      refine ⟨hih.1, hih.2.1, hih.2.2.1, hih.2.2.2.1, ?_, ?_⟩
+      · have h5 := hih.2.2.2.2.1; rw [hnext] at h5; omega
+      · intro r hr
+        rw [hih.2.2.2.2.2 r (by rw [hnext]; omega)]
+        exact deref_alloc_lt st _ r hr
+
 end PorepyVerif.C08
